@@ -3,6 +3,7 @@
 package verifier
 
 import (
+	revocationresult "github.com/notaryproject/notation-core-go/revocation/result"
 	"context"
 	"crypto/x509"
 	"time"
@@ -162,13 +163,17 @@ func init() { vsymHarnesses["VsymC03"] = VsymC03 }
 
 // VsymC03Sequence: one verifier object, several verifications one after the other - under the OCI statement of
 // one repository, the OCI statement of another, and the blob statement that happens to carry the same name as
-// the first. Each is decided by the stores its own statement lists, whatever was verified before.
+// the first. Every statement has stores, a trusted identity and a level of its own, and the revocation answer
+// may change from one verification to the next. Each verification is decided by its own statement and by the
+// answers given at that moment, whatever the same verifier verified before (nothing a verifier remembers may
+// stand in for a statement's stores, identities or level, or for a revocation check).
 func VsymC03Sequence() {
 	kitEnv = kitEnvState{}
 	kitInstallEnvelope()
 	window := func(c *x509.Certificate) *x509.Certificate {
 		c.NotBefore = time.Unix(946684800, 0)
 		c.NotAfter = time.Unix(4102444800, 0)
+		c.Subject.Country, c.Subject.Province, c.Subject.Organization = []string{"US"}, []string{"WA"}, []string{c.Subject.CommonName}
 		return c
 	}
 	leaf, unrelated := window(kitCert([]byte("leaf"), "leaf")), window(kitCert([]byte("unrelated"), "unrelated"))
@@ -184,21 +189,36 @@ func VsymC03Sequence() {
 		answers[s] = kitStoreAnswer{certs: []*x509.Certificate{c}}
 	}
 	store := &kitStore{answers: answers}
-	level := trustpolicy.SignatureVerification{VerificationLevel: "strict"}
-	oci := &trustpolicy.OCIDocument{Version: "1.0", TrustPolicies: []trustpolicy.OCITrustPolicy{
-		{Name: "acme", RegistryScopes: []string{"reg.io/repo"}, SignatureVerification: level, TrustStores: []string{stores[0]}, TrustedIdentities: []string{"*"}},
-		{Name: "other", RegistryScopes: []string{"reg.io/other"}, SignatureVerification: level, TrustStores: []string{stores[1]}, TrustedIdentities: []string{"*"}},
+	// the two statements named alike differ in what they pin and demand
+	pins := []bool{vr.Choice("acme.oci.pinsSigner", 2) == 1, true, vr.Choice("acme.blob.pinsSigner", 2) == 1}
+	identity := func(pinsSigner bool) []string {
+		if pinsSigner {
+			return []string{"x509.subject:C=US,ST=WA,O=leaf"}
+		}
+		return []string{"x509.subject:C=US,ST=WA,O=somebody else"}
+	}
+	levels := []string{[]string{"strict", "skip"}[vr.Choice("acme.oci.level", 2)], "strict", "strict"}
+	sv := func(l string) trustpolicy.SignatureVerification {
+		return trustpolicy.SignatureVerification{VerificationLevel: l}
+	}
+	st0 := trustpolicy.OCITrustPolicy{Name: "acme", RegistryScopes: []string{"reg.io/repo"}, SignatureVerification: sv(levels[0])}
+	if levels[0] != "skip" {
+		st0.TrustStores, st0.TrustedIdentities = []string{stores[0]}, identity(pins[0])
+	}
+	oci := &trustpolicy.OCIDocument{Version: "1.0", TrustPolicies: []trustpolicy.OCITrustPolicy{st0,
+		{Name: "other", RegistryScopes: []string{"reg.io/other"}, SignatureVerification: sv(levels[1]), TrustStores: []string{stores[1]}, TrustedIdentities: identity(pins[1])},
 	}}
 	blob := &trustpolicy.BlobDocument{Version: "1.0", TrustPolicies: []trustpolicy.BlobTrustPolicy{
-		{Name: "acme", SignatureVerification: level, TrustStores: []string{stores[2]}, TrustedIdentities: []string{"*"}},
+		{Name: "acme", SignatureVerification: sv(levels[2]), TrustStores: []string{stores[2]}, TrustedIdentities: identity(pins[2])},
 	}}
 	kitEnv.content = &signature.EnvelopeContent{
 		Payload: signature.Payload{ContentType: "application/vnd.cncf.notary.payload.v1+json", Content: vr.JSONBytes(vr.JObj("targetArtifact", vr.JObj("mediaType", vr.JStr("m"), "digest", vr.JStr("d"), "size", vr.JNum(1))))},
 		SignerInfo: signature.SignerInfo{SignedAttributes: signature.SignedAttributes{SigningScheme: signature.SigningSchemeX509, SigningTime: time.Unix(1700000000, 0)},
 			SignatureAlgorithm: signature.AlgorithmPS256, CertificateChain: []*x509.Certificate{leaf}, Signature: []byte("sig")},
 	}
+	validator := &kitValidator{}
 	v, err := NewVerifierWithOptions(store, VerifierOptions{OCITrustPolicy: oci, BlobTrustPolicy: blob,
-		RevocationCodeSigningValidator: &kitValidator{results: kitOKResults(1)}, RevocationTimestampingValidator: &kitValidator{}})
+		RevocationCodeSigningValidator: validator, RevocationTimestampingValidator: &kitValidator{}})
 	vr.Assert(err == nil, "harness: verifier")
 	if err != nil {
 		return
@@ -208,6 +228,12 @@ func VsymC03Sequence() {
 	n := vr.Param("verifications", 3)
 	for i := 0; i < n; i++ {
 		which := vr.Choice("statement", 3)
+		revoked := vr.Choice("signerRevokedNow", 2) == 1
+		validator.results = kitOKResults(1)
+		if revoked {
+			validator.results = []*revocationresult.CertRevocationResult{{Result: revocationresult.ResultRevoked}}
+		}
+		validator.calls = 0
 		store.calls = nil
 		var outcome *notation.VerificationOutcome
 		var verr error
@@ -220,10 +246,20 @@ func VsymC03Sequence() {
 			gen := func(a digest.Algorithm) (ocispec.Descriptor, error) { return desc, nil }
 			outcome, verr = v.VerifyBlob(ctx, gen, []byte{1}, notation.BlobVerifierVerifyOptions{SignatureMediaType: kitJWS, TrustPolicyName: "acme"})
 		}
-		vr.Assert((verr == nil) == holds[which], "each verification is decided by the stores of its own statement, whatever the same verifier verified before")
 		vr.Assert(outcome != nil, "an outcome is returned")
+		if levels[which] == "skip" {
+			vr.Assert(verr == nil && outcome != nil && outcome.VerificationLevel != nil && outcome.VerificationLevel.Name == "skip" && len(store.calls) == 0, "under a skip-level statement nothing is verified and no store consulted")
+			vr.Reach("skip statement in the sequence")
+			continue
+		}
+		want := holds[which] && pins[which] && !revoked
+		vr.Assert((verr == nil) == want, "each verification is decided by the stores, the trusted identities and the level of its own statement and by the revocation answer given now, whatever the same verifier verified before")
+		vr.Assert(outcome != nil && outcome.VerificationLevel != nil && outcome.VerificationLevel.Name == levels[which], "the level reported is that of the statement that applies")
 		for _, c := range store.calls {
 			vr.Assert(c == stores[which], "only the stores listed by the statement that applies are consulted")
+		}
+		if holds[which] && pins[which] {
+			vr.Assert(validator.calls == 1, "revocation is checked anew for every verification that gets that far")
 		}
 		if i > 0 {
 			vr.Reach("verified after another statement")
